@@ -51,7 +51,7 @@ theorem addNewMapping_clean_pass {s : State} (k0 : Key) (m : Mapping) (hc : Clea
   have hc1 : Clean (afterConsume s m) := ⟨hc.abs, hc.trig⟩
   rw [addPhase2_clean k0 m hc1 (afterConsume_clear s m)] at h3
   have h2 : x ∈ (afterConsume s m).pass := by
-    cases ham : isActionMapping m
+    cases ham : producesActionKey m
     · simpa [ham] using h3
     · simp only [ham, if_true] at h3; exact ram_pass_sub _ x h3
   simp only [afterConsume, consume_eq, List.mem_filter] at h2
@@ -187,7 +187,7 @@ end, whatever `release_absorbed_keys` handed back -/
 theorem addPhase2_consumed (s : State) (k : Key) (m : Mapping) (h : IInv m.to s) (hc : Consumed s)
     (hm : ConsumedFor s m) :
     Consumed (addPhase2 s k m).1 ∧ ConsumedFor (addPhase2 s k m).1 m := by
-  cases ha : isActionMapping m
+  cases ha : producesActionKey m
   · rw [addPhase2_nonaction s k m ha]; exact ⟨hc, hm⟩
   · cases hb : shouldAbsorb s k
     · rw [addPhase2_noabsorb s k m ha hb]
